@@ -49,6 +49,12 @@ def _Q(c, x):
 def _measure(symbols):
     """d_min and average number of minimum-distance neighbours of the emitted constellation (native)"""
     s = np.asarray(symbols, dtype=complex)
+    if len(s) > 1024:
+        from scipy.spatial import cKDTree
+        pts = np.column_stack([s.real, s.imag])
+        dist = cKDTree(pts).query(pts, k=9)[0][:, 1:]
+        dmin = float(dist.min())
+        return dmin, float((dist <= dmin * (1 + 1e-9)).sum()) / len(s), float(np.mean(np.abs(s) ** 2))
     d = np.abs(s.reshape(-1, 1) - s.reshape(1, -1))
     np.fill_diagonal(d, np.inf)
     dmin = float(d.min())
@@ -303,16 +309,18 @@ def ob_float_grid():
             yield {"mod": "PSK", "args": [2**k]}
         yield {"mod": "PSK", "args": [8, math.pi / 8]}
         yield {"mod": "PSK", "args": [16, 0.3]}
-        for k in range(1, 7 if not quick() else 5):
+        for k in range(1, 7 if not quick() else 6):
             yield {"mod": "QAM", "args": [4**k]}
 
     def check(case):
         o = getattr(f, case["mod"])(*case["args"])
         M = len(o.symbols)
         k = int(round(math.log2(M)))
-        dmin, nn, energy = _measure(o.symbols) if M <= 1024 else (None, None, None)
-        if M > 1024:
-            return None
+        if M != (case["args"][0] if case["args"] else {"BPSK": 2, "QPSK": 4}[case["mod"]]):
+            return {"emitted points": M, "order": case["args"]}
+        dmin, nn, energy = _measure(o.symbols)
+        if (not (dmin > 0)):
+            return {"coinciding constellation points, minimum distance": dmin}
         if (not (abs(energy - 1) <= 1e-9)):
             return {"energy": energy}
         grid = np.arange(-30, 60.25, 0.5)
